@@ -281,6 +281,10 @@ func (x *Exec) frameSpecOf(fr *Frame) *frameSpec {
 			name := strings.TrimSpace(m[:i])
 			if g, srt, ok := x.eng.gfieldLookup(ct.PkgPath, name); ok {
 				name = g.Name
+				if strings.TrimSpace(m[i+1:len(m)-1]) == "*" {
+					fs.allKeys[vc.ghostHeapKey(name, x.eng.ghostArrSort(vc, name))] = true
+					continue
+				}
 				obj, ot := ctx.evalText(m[i+1 : len(m)-1])
 				// a ghost field *defined* on this concrete type stands for the object itself
 				if pointee(ot) != nil {
@@ -296,7 +300,8 @@ func (x *Exec) frameSpecOf(fr *Frame) *frameSpec {
 						continue
 					}
 				}
-				k := vc.ghostHeapKey(name, fmt.Sprintf("(Array Int %s)", srt))
+				_ = srt
+				k := vc.ghostHeapKey(name, x.eng.ghostArrSort(vc, name))
 				get(k).objs = append(get(k).objs, obj)
 				continue
 			}
@@ -344,7 +349,17 @@ func (x *Exec) frameGoal(fr *Frame, k string, cur *State) string {
 	a := fs.allowed[k]
 	q := vc.fresh("p")
 	var excl []string
-	excl = append(excl, fmt.Sprintf("(< 0 %s)", q), fmt.Sprintf("(< %s %s)", q, ent.alloc))
+	qsort := "Int"
+	if strings.HasPrefix(k, "G|") {
+		if fsrt := strings.Fields(strings.TrimPrefix(vc.heapSorts[k], "(Array ")); len(fsrt) > 0 && fsrt[0] != "Int" && !strings.HasPrefix(fsrt[0], "(") {
+			qsort = fsrt[0]
+		}
+	}
+	if qsort == "Int" {
+		excl = append(excl, fmt.Sprintf("(< 0 %s)", q), fmt.Sprintf("(< %s %s)", q, ent.alloc))
+	} else {
+		excl = append(excl, "true")
+	}
 	if a != nil {
 		for _, o := range a.objs {
 			excl = append(excl, fmt.Sprintf("(not (= %s %s))", q, o))
@@ -353,7 +368,7 @@ func (x *Exec) frameGoal(fr *Frame, k string, cur *State) string {
 			excl = append(excl, fmt.Sprintf("(not (= %s %s))", q, p))
 		}
 	}
-	goal := fmt.Sprintf("(forall ((%s Int)) (! (=> (and %s) (= (select %s %s) (select %s %s))) :pattern ((select %s %s))))", q, strings.Join(excl, " "), curT, q, old, q, curT, q)
+	goal := fmt.Sprintf("(forall ((%s %s)) (! (=> (and %s) (= (select %s %s) (select %s %s))) :pattern ((select %s %s))))", q, qsort, strings.Join(excl, " "), curT, q, old, q, curT, q)
 	if a != nil {
 		for _, p := range a.ptrs {
 			obj := fmt.Sprintf("(select %s %s)", curT, p)
